@@ -223,11 +223,13 @@ pub fn run_vcd(args: &[&str]) -> String {
 /// of the complete observation (hierarchy with attributes, time table, every signal); `full` prints it all.
 pub fn run_file(args: &[&str]) -> String {
     use std::hash::{Hash, Hasher};
-    let mode = args[0];
+    // a mode ending in `+f` loads with remove_scopes_with_empty_name = true
+    let flatten = args[0].ends_with("+f");
+    let mode = args[0].trim_end_matches("+f");
     let bytes = std::fs::read(args[1]).unwrap();
     let ext = args[1].rsplit('.').next().unwrap_or("bin");
     let full = args.get(2).map(|s| *s == "full").unwrap_or(false);
-    let obs = load_mode_full(mode, &bytes, ext);
+    let obs = load_mode_full(mode, &bytes, ext, flatten);
     if full || !obs.starts_with("H=") {
         return obs;
     }
@@ -264,9 +266,10 @@ fn two_phase<R: std::io::BufRead + std::io::Seek + Sync + Send + 'static>(
     }
 
 /// like `load_mode` but the observation also contains the hierarchy
-pub fn load_mode_full(mode: &str, file: &[u8], ext: &str) -> String {
+pub fn load_mode_full(mode: &str, file: &[u8], ext: &str, flatten: bool) -> String {
     let parts: Vec<&str> = mode.split(':').collect();
     let mut opts = LoadOptions::default();
+    opts.remove_scopes_with_empty_name = flatten;
     let wave_full = |w: &mut simple::Waveform| -> String {
         let h = crate::hier::hierarchy_obs(w.hierarchy(), true);
         let meta = format!(
